@@ -470,6 +470,7 @@ extern "C" void vf_setup()
     if (c14::has_range_ctor<SV, int>)
         vf::require("range constructor driven by a single-pass input iterator");
     vf::require("boundary capacity: filled to exactly N");
+    vf::require("element types with trivial assignment but non-trivial lifetime (and the reverse)");
     vf::require("string boundary capacity: filled to exactly N");
     if (c14::has_split<SS>)
         vf::require("string: split<V,S> keeps the first V tokens, each clipped to S");
